@@ -221,8 +221,10 @@ ImplJoinItems(join, L, R, deep) ==
         IF k > Len(S) THEN J
         ELSE LET s == S[k] IN
              IF InKeys(s.name) /\ deep
-             THEN \* deep merge: the join of the samples is hard-coded 'left outer'
-                  Loop(k + 1, [J EXCEPT ![KeyIdx(s.name)].samples = ImplJoinItems("left outer", @, s.samples, FALSE)])
+             THEN \* deep merge: an 'outer' join stays 'outer' for the samples (clashes refused by _join_channels),
+                  \* the unsafe joins keep the primary's samples ('left outer')
+                  Loop(k + 1, [J EXCEPT ![KeyIdx(s.name)].samples =
+                                   ImplJoinItems(IF join = "outer" THEN "outer" ELSE "left outer", @, s.samples, FALSE)])
              ELSE IF \/ join = "none"
                      \/ (join = "outer" /\ s \notin Range(P))
                      \/ (join \in {"left outer", "right outer"} /\ ~InKeys(s.name))
@@ -236,7 +238,10 @@ ImplJoinSection(join, L, R, deep) ==
   IF join = "none" THEN (IF NamesOf(L) \cap NamesOf(R) # {} THEN JNo ELSE JOk(J))
   ELSE IF join = "outer" THEN (IF ~Unique(J) THEN JNo ELSE JOk(J))
   ELSE JOk(J)
-ImplJoinChannels(join, merge, L, R) == ImplJoinSection(join, L, R, merge)
+\* _join_channels additionally refuses a merged channel that ends up with two samples of one name
+ImplJoinChannels(join, merge, L, R) ==
+  LET r == ImplJoinSection(join, L, R, merge) IN
+  IF r.ok /\ join = "outer" /\ (\E i \in DOMAIN r.items : ~Unique(r.items[i].samples)) THEN JNo ELSE r
 ImplJoinObservations(join, L, R)    == ImplJoinSection(join, L, R, FALSE)
 
 \* _join_parameter_configs
